@@ -4,7 +4,7 @@ usage: tools/seedmatrix.py [seed-name ...]   results -> seeded/RESULTS.json"""
 import json,os,subprocess,sys,glob,re
 V='/verif'
 names=sys.argv[1:] or sorted(os.path.basename(d.rstrip('/')) for d in glob.glob(V+'/seeded/C*-*/'))
-extra={"C01-a":["C05","C08"],"C05-a":["C01","C08"],"C03-a":["C07"],"C03-b":["C07"],"C07-b":["C03"],"C02-a":["C12"],"C12-a":["C02","C13"],"C13-b":["C02"],"C06-a":["C13"],"C14-b":["C10"],"C18-a":["C09"],"C09-b":["C18"],"C13-a":["C15"],"C08-a":["C14"],"C14-a":["C18"],"C10-b":["C14"]}
+extra={"C01-a":["C05","C08"],"C05-a":["C01","C08"],"C03-a":["C07"],"C03-b":["C07"],"C07-b":["C03"],"C02-a":["C12"],"C12-a":["C02","C13"],"C13-b":["C02"],"C06-a":["C13"],"C14-b":["C10"],"C18-a":["C09"],"C09-b":["C18"],"C13-a":["C15"],"C08-a":["C14"],"C14-a":["C18"],"C10-b":["C14"],"C02-r3a":["C15"],"C06-r3a":["C20"],"C18-r3b":["C09"],"C01-r3a":["C19"],"C14-r3b":["C09","C17"],"C03-r3a":["C07"],"C03-r3b":["C07"],"C12-r3b":["C07"],"C15-r3b":["C13"]}
 try: res=json.load(open(V+'/seeded/RESULTS.json'))
 except Exception: res={}
 for n in names:
